@@ -307,8 +307,11 @@ func sampleJSON(r *rand.Rand, p *synth.Project, t synth.T, depth int) any {
 	case "named":
 		if e := p.Enum(t.Pkg, t.Name); e != nil {
 			v := e.Values[r.Intn(len(e.Values))]
+			// json.Number keeps the digits of constants beyond 2^53 (top of the uint64 range)
 			var x any
-			_ = json.Unmarshal([]byte(v.Lit), &x)
+			d := json.NewDecoder(strings.NewReader(v.Lit))
+			d.UseNumber()
+			_ = d.Decode(&x)
 			return x
 		}
 		if a := p.Alias(t.Pkg, t.Name); a != nil {
